@@ -1,6 +1,7 @@
 import Mp4ff.Model.Crop
 import Mp4ff.Lemmas.C10
 import Mp4ff.Lemmas.C10D
+import Mp4ff.Lemmas.C10H
 /-!
 # C10 — cropping a progressive file yields exactly a prefix of every track
 Property theorems about `Model/Crop.lean` (the transcription of cmd/mp4ff-crop/main.go): the cut point, every
@@ -78,5 +79,35 @@ theorem mergeRanges_copied (file : Bytes) (pieces : List KChunk) (h : ∀ c ∈ 
 
 /-- non-vacuity: a two-run stts cut inside the second run -/
 example : (cropStts ⟨[3, 4], [10, 20]⟩ 5).map (·.durations) = some [10, 10, 10, 20, 20] := by decide
+
+/-- **header durations do not exceed the originals** (`writeUptoMdat`): whenever the tool succeeds, every track header
+    carries the new duration, which is at most the track's previous one; every edit list keeps its entries, none of
+    which grows and none of which is shortened to zero -/
+theorem crop_header_durations (h h' : MovieHdr) (e ts : Nat) (hc : cropHeaders h e ts = some h') :
+    h'.timescale = h.timescale ∧ h'.mvhdDur = min (newDuration h.timescale e ts) h.mvhdDur ∧
+    h'.tracks.length = h.tracks.length ∧
+    ∀ i (hi : i < h.tracks.length) (hi' : i < h'.tracks.length),
+      h'.tracks[i].tkhdDur = newDuration h.timescale e ts ∧ h'.tracks[i].tkhdDur ≤ h.tracks[i].tkhdDur ∧
+      h'.tracks[i].elst.length = h.tracks[i].elst.length ∧
+      ∀ j (hj : j < h.tracks[i].elst.length) (hj' : j < h'.tracks[i].elst.length),
+        h'.tracks[i].elst[j] ≤ h.tracks[i].elst[j] ∧ (0 < h.tracks[i].elst[j] → 0 < h'.tracks[i].elst[j]) :=
+  Crop.cropHeaders_tracks h h' e ts hc
+
+/-- … and the movie header duration does not grow — for every input, also one whose movie header under-reports the
+    duration (0 = unknown), which the tool used to overwrite with the new, larger value (fixed; see known findings) -/
+theorem crop_movie_duration (h h' : MovieHdr) (e ts : Nat) (hc : cropHeaders h e ts = some h') :
+    h'.mvhdDur ≤ h.mvhdDur := Crop.cropHeaders_mvhd h h' e ts hc
+
+/-- in a consistent file (movie duration at least the duration of one track) it is exactly the new duration -/
+theorem crop_movie_duration_eq (h h' : MovieHdr) (e ts : Nat) (hc : cropHeaders h e ts = some h')
+    (hcons : ∃ t ∈ h.tracks, t.tkhdDur ≤ h.mvhdDur) : h'.mvhdDur = newDuration h.timescale e ts :=
+  Crop.cropHeaders_mvhd_eq h h' e ts hc hcons
+
+/-- the under-reporting movie header stays as it is -/
+example : cropHeaders ⟨1000, 0, [⟨5000, [5000]⟩]⟩ 2000 1000 = some ⟨1000, 0, [⟨2000, [2000]⟩]⟩ := by decide
+
+/-! non-vacuity: a two-track movie cut from 9 s / 10 s to 4 s -/
+example : cropHeaders ⟨1000, 10000, [⟨10000, [10000]⟩, ⟨9000, [500, 8500]⟩]⟩ 360000 90000 =
+    some ⟨1000, 4000, [⟨4000, [4000]⟩, ⟨4000, [500, 3500]⟩]⟩ := by decide
 
 end Mp4ff.Crop.C10
